@@ -1,15 +1,17 @@
 # run specification for C07 (loaded by checks_config.py)
 CHECK = {'level': 'exploration',
  'rule': 'exhaustive header pairs over (height,maxHeightGenerated,maxHeightPrevoted) in 0..R x same/different generator + rapid pairs over uint32 '
-         'boundary values; fork-choice inputs over all equality patterns; chains of a protocol-following generator replayed through the real BFT '
+         'boundary values; fork-choice inputs over all equality patterns with every instant (header timestamps, reception of the tip, now) at a drawn offset inside its slot; real-time sequences (2-second slots) of 1-3 competing blocks for one height through Executer.process, each late or on time, by the same or another generator, with or without a slot of waiting in between; chains of a protocol-following generator replayed through the real BFT '
          'module. Non-trivial = same-generator pair with at least one field tie, or a fork-choice input on which >=2 predicates are true, or a chain '
          'case in which the generator switched chains; distinct by digest of the field tuple',
  'level_text': 'Exhaustive comparison of the contradiction relation with the LIP-0014 definition and with the semantic statement (neither header is '
                'a legitimate successor of the other) over all field triples in 0..6 (0..8 thorough), random uint32 pairs, all fork-choice predicate '
                'patterns with the first-match classification order, and replayed two-branch chains of protocol-following generators through the real '
-               'BFT module. Exhaustive on the small domain, sampled beyond it.',
- 'level_note': 'Trusts my transcription of LIP-0014; wall clock steered by slot placement (500 s margins).',
+               'BFT module; tie-break sequences compared decision by decision with a reference that carries (tip slot, slot of reception, generator). Exhaustive on the small domain, sampled beyond it.',
+ 'level_note': 'Trusts my transcription of LIP-0014; wall clock steered by slot placement (>= 30 s margins); the real-time sequences skip a case as inconclusive when the wall clock crosses a slot boundary inside a step.',
  'technique': 'exhaustive enumeration + property-based testing (rapid) against a LIP-0014 reference',
  'assumptions': ['reference = my transcription of LIP-0014', 'wall clock read by forkchoice.NewForkChoice is steered by slot placement'],
- 'quick': [{'pkg': 'c07', 'checks': 3000, 'timeout': 600}],
- 'thorough': [{'pkg': 'c07', 'checks': 30000, 'shards': 8, 'scale': 1.5, 'timeout': 1500}]}
+ 'quick': [{'pkg': 'c07', 'checks': 3000, 'timeout': 600, 'args': ['-test.skip', 'TestTieBreakSequence']},
+           {'pkg': 'c07', 'run': 'TestTieBreakSequence', 'checks': 6, 'timeout': 300}],
+ 'thorough': [{'pkg': 'c07', 'checks': 30000, 'shards': 8, 'scale': 1.5, 'timeout': 1500, 'args': ['-test.skip', 'TestTieBreakSequence']},
+              {'pkg': 'c07', 'run': 'TestTieBreakSequence', 'checks': 14, 'shards': 8, 'gomaxprocs': 2, 'timeout': 900}]}
